@@ -25,7 +25,7 @@ static const unsigned short KIND[8] = { BLOCK_H1, BLOCK_H2, BLOCK_H3, BLOCK_H4, 
 static int lvl(unsigned k) { return k < 6 ? (int) k + 1 : (int) k - 5; }
 int main(void) {
 	IN_LOAD();
-	ASSUME(IN.ka < 8 && IN.kb < 8 && IN.kc < 8 && IN.base >= 1 && IN.base <= 6);
+	ASSUME(IN.ka < 8 && IN.kb < 8 && IN.kc < 8 && IN.base >= -8 && IN.base <= 8);        /* atoi() of the metadata value: any sign */
 	ASSUME(IN.a_start <= 4 && IN.a_len >= 1 && IN.a_len <= 4 && IN.gap1 <= 4 && IN.b_len >= 1 && IN.b_len <= 4 && IN.gap2 <= 4 && IN.c_len >= 1 && IN.c_len <= 4);
 	static scratch_pad sp; sp.base_header_level = IN.base; sp.outline_stack = stack_new(0); sp.opml_item_closed = IN.closed & 1;
 	token *a = token_new(KIND[IN.ka], IN.a_start, IN.a_len);
